@@ -214,6 +214,9 @@ def run(chk):
     # R6 waits
     _waits(chk, repo, folder, sc)
 
+    # ------------------------------------------------------------------ R9 the state a master reports is the one the slave's heartbeat carries (shared with C17.R3)
+    from . import c17 as _c17hb
+    _c17hb.heartbeat_follows_state(chk, "R9")
     # ------------------------------------------------------------------ R8 instances are independent (shared clause)
     from . import shared as _shared
     _shared.isolation(chk, "R8", rels=['canopen/nmt.py'])
